@@ -61,7 +61,7 @@ theorem famgood_discretize (orc : Parent ℝ) (f g : FamSt ℝ) (hpre : Pre g.dd
   · rw [h]; exact ⟨hf, Or.inl rfl⟩
   · rw [h]
     obtain ⟨hv, e5, e6, e7, _, e9⟩ := discretize_valid (g.parent orc) g.dd d hpre
-      (hpar _ _ le_rfl hpre.dom_ordered le_rfl) (fun h => absurd hsch h) hd
+      (hpar _ _ le_rfl hpre.dom_ordered le_rfl) hd
     have hp : FamSt.parent orc { g with dd := d } = g.parent orc := by
       unfold FamSt.parent; rfl
     refine ⟨⟨⟨by rw [e5]; exact hpre.n_pos, by rw [e7]; exact hpre.prec_nonneg, by rw [e6]; exact hpre.dom_ordered⟩,
@@ -139,7 +139,7 @@ theorem famgood_restrict (orc : Parent ℝ) (f : FamSt ℝ) (c : Interval ℝ) (
           have hpar : ∀ lo hi, d.lo ≤ lo → lo ≤ hi → hi ≤ d.hi → ParentOK (f.parent orc) lo hi :=
             fun lo hi a b c' => hf.parent lo hi (h3.trans a) b (c'.trans h4)
           obtain ⟨hv, e5, e6, e7, _, e9⟩ := discretize_valid (f.parent orc) { f.dd with dom := d } d' hpre
-            (hpar _ _ le_rfl hlo le_rfl) (fun h => absurd hf.scheme h) hd
+            (hpar _ _ le_rfl hlo le_rfl) hd
           have e6' : d'.dom = d := e6
           have hgood : ∀ t : Bool, FamGood orc { f with dd := d', tpTied := t } := fun t =>
             ⟨⟨by rw [e5]; exact hpre.n_pos, by rw [e7]; exact hpre.prec_nonneg, by rw [e6']; exact hlo⟩, hv,
@@ -162,13 +162,17 @@ theorem discretize_cfg (par : Parent ℝ) (s s' : DD ℝ) (h : discretize par s 
     · obtain ⟨m, _, rfl⟩ := eqProp_ok par s s' h
       exact ⟨rfl, rfl, rfl, rfl, rfl⟩
     · split at h
-      · injection h with h; subst h; exact ⟨rfl, rfl, rfl, rfl, rfl⟩
+      · obtain ⟨m, _, rfl⟩ := eqInt_ok par s s' h
+        exact ⟨rfl, rfl, rfl, rfl, rfl⟩
       · cases he : eqProp par s with
         | error e => simp [he, bind, Except.bind] at h
         | ok s1 =>
           obtain ⟨m, _, rfl⟩ := eqProp_ok par s s1 he
           simp only [he, bind, Except.bind] at h
-          split at h <;> (injection h with h; subst h; exact ⟨rfl, rfl, rfl, rfl, rfl⟩)
+          split at h
+          · obtain ⟨m2, _, rfl⟩ := eqInt_ok par _ s' h
+            exact ⟨rfl, rfl, rfl, rfl, rfl⟩
+          · injection h with h; subst h; exact ⟨rfl, rfl, rfl, rfl, rfl⟩
 
 /-- family, parameters and flags are untouched; the domain as stated -/
 def SameParams (f g : FamSt ℝ) : Prop :=
